@@ -88,8 +88,8 @@ def run(ck):
         for sw, blk in enumerate(kb.blocks):
             if blk["term"]["t"] != "switch" or kb.is_cleanup(sw):
                 continue
-            e = kb.expr(blk["term"]["on"])
-            if e[0] == "place" and any(".is_registered" in p for r, p in kb.resolve(e[2])):
+            kind, aps = T.switch_reads(kb, sw)
+            if kind == "place" and any(".is_registered" in p for r, p in aps):
                 exempt += T.edges_of_value(kb, sw, False)
         bad = T.t2_all_exits(kb, [0], rel, removed_edges=exempt) if rel else [0]
         ck.verdict(bad is None, "1", "T11-acquire-release", kb, "registered=>released(no-other-condition)", "whenever the adapter is registered, tearing it down unregisters the fd: the only way around the poller call is the 'not registered' edge", "tearing down an Async adapter can skip unregistering a registered fd (an extra condition guards the release): with a non-owning IO object (&UnixStream, BorrowedFd, Rc<..>) the fd stays in the poller and adapting it again fails with EEXIST", site=kb.where(), path=path_descr(kb, bad) if bad else None)
@@ -106,16 +106,14 @@ def run(ck):
             if b.is_cleanup(cs.bb) or not RELEASE(cs):
                 continue
             # find a switch on a *field* that decides this release
-            for sw in T.switches_on_expr(b, lambda e: e[0] in ("place", "discr")):
-                e = b.expr(b.blocks[sw]["term"]["on"])
-                pl = e[2]
-                fields = [p["n"] for ap in b.resolve(pl) for p in [] ]
+            for sw in T.switches_on_expr(b, lambda e: e[0] in ("place", "discr", "call")):
+                kind, aps = T.switch_reads(b, sw)
                 names = []
-                for root, path in b.resolve(pl):
+                for root, path in aps:
                     names += [x[1:] for x in path if x.startswith(".") and x[1:] in ("is_registered", "poller", "registered")]
                 if not names:
                     continue
-                ed_t = T.edges_of_value(b, sw, True) if e[0] == "place" else T.discr_edges(b, sw, 1)
+                ed_t = T.edges_of_value(b, sw, True) if kind == "place" else T.discr_edges(b, sw, 1)
                 if not T.reachable_only_via(b, cs.bb, ed_t):
                     continue
                 fld = names[0]
@@ -174,7 +172,7 @@ def run(ck):
             ck.anchor_missing("3", "T2-all-exits", q)
             continue
         pc = [cs for cs in T.calls(g, name=callee) if cs.f["path"].startswith("sys::Poll::")]
-        okret = [i for i, j, st in g.statements() if st["s"] == "assign" and st["pl"]["l"] == 0 and st["rv"]["r"] == "agg" and st["rv"].get("variant") == "Ok" and not g.is_cleanup(i)]
+        okret = [i for i, j, st in g.statements() if st["s"] == "assign" and st["pl"]["l"] in T.ret_locals(g) and st["rv"]["r"] == "agg" and st["rv"].get("variant") == "Ok" and not g.is_cleanup(i)]
         bad = T.t2_all_exits(g, [0], [c.bb for c in pc], exits=okret or None) if pc else [0]
         ck.verdict(bad is None, "3", "T2-all-exits", g, "always-reaches:Poll::%s" % callee, "every successful %s hands the current interest, mode and token to the poller" % callee, "Generic::%s can return Ok without calling the poller (a cached-state shortcut): a change of interest/mode/token since the last registration is silently not applied" % callee, site=g.where(), path=path_descr(g, bad) if bad else None)
         for c in pc:
